@@ -39,6 +39,7 @@ func Run(p *load.Program, tier string) *oblig.Set {
 	loopRule(p, s)
 	readerRule(p, s)
 	reportRule(p, s)
+	segmentsRule(p, s)
 	return s
 }
 
@@ -608,4 +609,111 @@ func reportRule(p *load.Program, s *oblig.Set) {
 		}
 		s.Bad("P5", key, pos, "strings.Repeat panics on a negative count; a count is not guarded by a comparison that makes it non-negative", l...)
 	}
+}
+
+// segmentsRule (P6): the code and data segments only grow. Outside the
+// compiler (which appends and patches its own placeholders) nothing stores
+// into *CR.CS / *CR.DS: code already compiled refers to data segment slots
+// and code addresses by number, and the VM resumes at len(CS).
+func segmentsRule(p *load.Program, s *oblig.Set) {
+	n := 0
+	for _, rel := range []string{"cmd/calc", "types/node", "vm", "builtin", "memory"} {
+		sp := p.SPkg(rel)
+		if sp == nil {
+			continue
+		}
+		var fns []*ssa.Function
+		for _, m := range sp.Members {
+			switch x := m.(type) {
+			case *ssa.Function:
+				fns = append(fns, x)
+			case *ssa.Type:
+				for _, T := range []types.Type{x.Type(), types.NewPointer(x.Type())} {
+					ms := p.SSA.MethodSets.MethodSet(T)
+					for i := 0; i < ms.Len(); i++ {
+						if f := p.SSA.MethodValue(ms.At(i)); f != nil && f.Blocks != nil && f.Synthetic == "" {
+							fns = append(fns, f)
+						}
+					}
+				}
+			}
+		}
+		seen := map[*ssa.Function]bool{}
+		for _, fn := range fns {
+			if seen[fn] || fn.Blocks == nil {
+				continue
+			}
+			seen[fn] = true
+			all := append([]*ssa.Function{fn}, fn.AnonFuncs...)
+			for _, f := range all {
+				for _, b := range f.Blocks {
+					for _, ins := range b.Instrs {
+						st, ok := ins.(*ssa.Store)
+						if !ok {
+							continue
+						}
+						// store through the pointer held in field CS or DS of a compresult.Type
+						fname := segField(st.Addr)
+						if fname == "" {
+							continue
+						}
+						n++
+						key := fmt.Sprintf("%s / writes segment %s", p.FuncKey(f), fname)
+						inCompiler := rel == "types/node" && (strings.HasSuffix(f.Name(), "byteCode") || strings.HasPrefix(f.Name(), "ByteCode") || f.Name() == "condition" || f.Name() == "discardingWhile" || f.Name() == "pushingWhile")
+						// an append of the old value keeps everything that was there
+						isAppend := false
+						if c, ok := st.Val.(*ssa.Call); ok {
+							if bi, ok := c.Call.Value.(*ssa.Builtin); ok && bi.Name() == "append" {
+								if l, ok := c.Call.Args[0].(*ssa.UnOp); ok && segField(l.X) == fname {
+									isAppend = true
+								}
+							}
+						}
+						switch {
+						case isAppend:
+							s.OK("P6", key, p.Pos(st.Pos()), "append to the segment")
+						case inCompiler:
+							s.OK("P6", key, p.Pos(st.Pos()), "the compiler's own segment handling (checked by the compiler rules: code is only appended)")
+						default:
+							s.Bad("P6", key, p.Pos(st.Pos()), "code outside the compiler replaces the "+fname+" segment by something other than an append to it: compiled code addresses data segment entries and code positions by number, shrinking or rewriting a segment invalidates code that already exists")
+						}
+					}
+				}
+			}
+		}
+	}
+	if n == 0 {
+		s.Unk("P6", "segment writes", "-", "no store to a code/data segment found at all")
+	}
+}
+
+// segField names the segment (CS / DS) a pointer value comes from, or "".
+func segField(v ssa.Value) string {
+	var st types.Type
+	var ix int
+	switch x := v.(type) {
+	case *ssa.Field:
+		st, ix = x.X.Type(), x.Field
+	case *ssa.UnOp:
+		fa, ok := x.X.(*ssa.FieldAddr)
+		if !ok {
+			return ""
+		}
+		pt, ok := fa.X.Type().Underlying().(*types.Pointer)
+		if !ok {
+			return ""
+		}
+		st, ix = pt.Elem(), fa.Field
+	default:
+		return ""
+	}
+	named, ok := types.Unalias(st).(*types.Named)
+	if !ok || named.Obj().Pkg() == nil || !strings.HasSuffix(named.Obj().Pkg().Path(), "types/compresult") {
+		return ""
+	}
+	n := named.Underlying().(*types.Struct).Field(ix).Name()
+	if n == "CS" || n == "DS" {
+		return n
+	}
+	return ""
 }
